@@ -411,6 +411,11 @@ func redactPipelineStage(stage interface{}, redactFieldNames bool, keyPath []str
 									newPipeline[i] = redactPipelineStage(stage, redactFieldNames, []string{}, isInSearchStage(stage))
 								}
 								newPipelineMap.Set(subK, newPipeline)
+							} else if subVMap, ok := subV.(*orderedmap.OrderedMap[string, any]); ok {
+								// not a sub-pipeline: redact it like any other document and keep the key
+								newPipelineMap.Set(subK, redactPipelineStage(subVMap, redactFieldNames, []string{}, isInSearchStage(subVMap)))
+							} else {
+								newPipelineMap.Set(subK, redactScalarValue([]string{subK}, subV, inSearchStage, false))
 							}
 						}
 						newMap.Set(redactedKey, newPipelineMap)
